@@ -549,6 +549,14 @@ fn c03_sequence(ctx: &mut Ctx, r: &mut Rng, outcomes: &[bool], ep_fixed: Option<
             sink.log.lock().unwrap().script.clear();
             continue;
         }
+        // rule 1b: the one string handed to the sink is THIS call's metric (nothing left over from earlier calls)
+        if let (Ok(e), Some((text, _))) = (&exp, emitted.first()) {
+            if let Err(why) = matches_line(e, text) {
+                ctx.violation("C03", "one-call-one-emit", "text-not-this-metric", format!("the string handed to the sink is not this call's metric: {}", why), trace("emitted text"));
+                sink.log.lock().unwrap().script.clear();
+                continue;
+            }
+        }
         // rule 2: results
         match (&ret, valid, &injected) {
             (Ret::Ok(m), true, None) => {
